@@ -57,6 +57,7 @@ struct Hist {
     bool opPrint();
     bool opWildEdit();
     bool opCopyOut();
+    bool opReadModifyWrite();
 
     // helpers
     Frame buildFrame(int deviation, std::string* devName, SFrame* intended, int forceSub = -1);
